@@ -207,6 +207,9 @@ var scenarios = []scenario{
 		s.opRemove("rmdir", p, "a")
 		s.pokeInodeAlloc(inumOf(a) - 1)
 		b := s.mk("mkdir", s.root(), "b") // takes a's number, in ANOTHER parent
+		if s.c10on {
+			s.coherence() // before anything aborts on b (an abort drops the cached inode and heals it)
+		}
 		s.opLookup(b, "..")
 		s.opLookup(b, ".")
 		s.opLookup(b, "x")
@@ -222,6 +225,9 @@ var scenarios = []scenario{
 		s.opRemove("rmdir", q, "c")
 		s.pokeInodeAlloc(inumOf(c) - 1)
 		e := s.mk("mkdir", b, "e") // c's number, now under b
+		if s.c10on {
+			s.coherence()
+		}
 		s.opLookup(e, "..")
 		s.opReaddirplus(e, 0, 1000, 10000)
 	}},
